@@ -540,7 +540,8 @@ class Job:
                 self._statepoint_requires_init = False
             self.statepoint.reset(new_statepoint)
 
-        self._project._register(self.id, new_statepoint)
+        # Register a copy: the caller keeps (and may modify) the given mapping.
+        self._project._register(self.id, self.statepoint())
 
     @property
     def sp(self):
